@@ -35,7 +35,7 @@ SYS_A = 'system_bmimbf4_cg.gro'
 TRIPLE_A = {'BMIM': ('BMIM_CG.itp', 'BMIM_AA.gro', 'BMIM_AA.itp'),
             'BF4': ('BF4_CG.itp', 'BF4_AA.gro', 'BF4_AA.itp')}
 SPECIES_LISTS = (['BMIM', 'BF4'], ['BF4', 'BMIM'], ['BMIM'], ['BF4'])
-SCALES_A = (None, 0.3, 1.0)          # None = flag absent
+SCALES_A = (None, 0.3, 1.0, 0.0)     # None = flag absent; 0: every atom collapses onto its bead
 STEPS = 2
 
 
@@ -71,7 +71,7 @@ VARIANTS = {
     # every candidate a user would get from `--auto dir/*`
     'B': ['P_aa.gro', 'P_aa.itp', 'P_cg.itp', 'P_one_cg.gro', 'Q_aa.gro', 'Q_aa.itp', 'Q_cg.itp',
           'R_aa.gro', 'R_aa.itp', 'R_cg.itp', 'T_cg.itp', 'X_aa.gro', 'X_aa.itp', 'X_cg.itp', 'Z_cg.itp',
-          'bad.gro', 'notes.txt', 'sys.gro', 'P_old.Itp', 'Q_backup.Gro'],
+          'bad.gro', 'notes.txt', 'sys.gro', 'P_old.Itp', 'Q_backup.Gro', 'A_two_P_aa.gro'],
     # six files: one species, an orphan coordinate file, the start-only species, a malformed file
     'S': ['P_aa.gro', 'P_aa.itp', 'P_cg.itp', 'Q_aa.gro', 'T_cg.itp', 'bad.gro'],
 }
@@ -133,6 +133,12 @@ def write_directory(d, seed, bad='count_too_big'):
                                  title='one start-resolution molecule'))
     put('bad.gro', BAD_KINDS[bad])
     put('notes.txt', 'PMOL QMOL RMOL: see P_cg.itp P_aa.itp P_aa.gro\n')
+    # two copies of P's end-resolution molecule in one file (e.g. a mapped system left by an earlier run): it is not
+    # the coordinate file of ONE molecule and must not be taken for P's end coordinates, whatever is visited first
+    aa = DSPEC['P'][2]
+    pts2 = generic_points(2 * len(aa), seed, tag=355) * 0.5 + 3.0
+    put('A_two_P_aa.gro', gro_text([(1 + j // len(aa), aa[j % len(aa)][1], aa[j % len(aa)][0], j + 1, pts2[j])
+                                    for j in range(2 * len(aa))], title='two PMOL molecules'))
     # extensions in a spelling no parser is registered for: not candidates at all
     put('P_old.Itp', itp_text('PMOL', DSPEC['P'][1], _chain(len(DSPEC['P'][1]))))
     put('Q_backup.Gro', 'old\n    1\n    1QRS     D1    1   0.100   0.200   0.300\n' + _BOXL)
@@ -378,7 +384,7 @@ class C20(Check):
         max_dev = 3 if thorough else 2
         chunk_cost = 200 if thorough else 40
         self.bounds = {
-            'differential': {'species_lists': [list(x) for x in SPECIES_LISTS], 'scales': ['absent', 0.3, 1.0],
+            'differential': {'species_lists': [list(x) for x in SPECIES_LISTS], 'scales': ['absent', 0.3, 1.0, 0.0],
                              'outputs': ['-o absolute', 'default', '-o relative (cwd is not the input folder)'] + (['default_relative_cwd'] if thorough else []),
                              'numpy_seeds': [0, 1] if thorough else [0], 'steps_factor': STEPS},
             'set_all_permutations_up_to': kmax, 'set_transpositions_beyond': 2, 'max_deviations': max_dev,
